@@ -245,6 +245,9 @@ def cbmc_cmd(cfile, inst, witness, trace=False):
     cmd += ['-DVF_NTHREADS=%d' % nthr]
     if inst.get('engine', 'cbmc') == 'cbmc':
         cmd += ['-DVF_SEQUENTIAL=1']
+    if inst.get('engine') != 'cbmc-seq' and 'fs_array' in inst:
+        # optional: arrays up to this many elements are split into per-element SSA symbols (cbmc default 64)
+        cmd += ['--max-field-sensitivity-array-size', str(inst['fs_array'])]
     if inst.get('engine') == 'cbmc-seq':
         steps = inst.get('steps', 8)
         cmd += ['-DVF_SEQ=1', '-DVF_STEPS=%d' % steps, '--max-field-sensitivity-array-size',
@@ -392,6 +395,14 @@ def prepare_instance(inst, wd):
     ll = lift(inst, wd)
     ll_orig = ll
     seq = inst.get('engine') == 'cbmc-seq'
+    if seq and inst.get('promote_icalls'):
+        # opt-in: guarded promotion of indirect calls to the listed targets (vf/icp.py), so that the inliner
+        # can pull them into the thread roots (preemptible)
+        from . import icp
+        txt_, rep_ = icp.promote(open(ll).read(), inst['promote_icalls'])
+        ll = os.path.join(wd, 'h_icp.ll')
+        open(ll, 'w').write(txt_)
+        inst['_icp_report'] = rep_
     if seq:
         ll = seq_inline(ll, wd, keep=list((inst.get('intercept') or {}).keys()) + inst.get('no_inline', []),
                         unroll=bool(inst.get('seq_unroll')))
@@ -468,7 +479,7 @@ def resolve_unwind_fn(inst, cfile):
         # loops of the happens-before detector run over its (small, constant) tables
         n = max(int(inst['rt_defs'].get('VF_RACE_ATOMS', 8)), int(inst['rt_defs'].get('VF_RACE_PROBES', 8)),
                 inst.get('nthreads', 5)) + 1
-        for fn in ('vf_race_atom', 'vf_race_probe', 'vf_race_store', 'vf_race_load', 'vf_race_rmw', 'vf_race_fence',
+        for fn in ('vf_race_slot', 'vf_race_atom', 'vf_race_probe', 'vf_race_store', 'vf_race_load', 'vf_race_rmw', 'vf_race_fence',
                    'vf_race_spawn', 'vf_race_join', 'vf_race_write', 'vf_race_read', 'vf_race_init', 'vf_join_all'):
             uf.setdefault(fn, n)
     if not uf or '_unwind_fn_resolved' in inst:
